@@ -143,6 +143,55 @@ func extractDecoderCfg(repo, root string) error {
 			}
 		}
 	}
+	// G9 decoder.read allocates the announced length only up to readChunk; longer values go to a buffer that grows with the bytes received
+	if fd, ok := fs["read"]; ok && fd.Body != nil {
+		body := text(fd.Body)
+		guarded := false
+		ast.Inspect(fd.Body, func(x ast.Node) bool {
+			if is, ok := x.(*ast.IfStmt); ok && text(is.Cond) == "n <= readChunk" && strings.Contains(text(is.Body), "make([]byte, n)") {
+				if len(is.Body.List) > 0 {
+					if _, ok := is.Body.List[len(is.Body.List)-1].(*ast.ReturnStmt); ok {
+						guarded = true
+					}
+				}
+			}
+			return true
+		})
+		facts["G9"] = guarded && strings.Count(body, "make([]byte, n)") == 1 && strings.Contains(body, "make([]byte, readChunk)")
+	}
+	// G10 the loops over tagged fields stop at the first decoder error (response header, request header, flexible structs)
+	{
+		g10 := true
+		loopStops := func(n ast.Node, src func(ast.Node) string, counter string) bool {
+			found := false
+			ast.Inspect(n, func(x ast.Node) bool {
+				if f, ok := x.(*ast.ForStmt); ok && f.Cond != nil {
+					c := src(f.Cond)
+					if strings.Contains(c, "< "+counter) {
+						found = strings.Contains(c, "d.err == nil")
+					}
+				}
+				return true
+			})
+			return found
+		}
+		for _, fn := range [][2]string{{"response.go", "ReadResponse"}, {"request.go", "ReadRequest"}} {
+			f, src, err := parse(fn[0])
+			if err != nil {
+				return err
+			}
+			fd, ok := funcsOf(f)[fn[1]]
+			g10 = g10 && ok && loopStops(fd, func(n ast.Node) string {
+				return strings.Join(strings.Fields(src[fset.Position(n.Pos()).Offset:fset.Position(n.End()).Offset]), " ")
+			}, "taggedCount")
+		}
+		if fd, ok := fs["structDecodeFuncOf"]; ok {
+			g10 = g10 && loopStops(fd, text, "n")
+		} else {
+			g10 = false
+		}
+		facts["G10"] = g10
+	}
 	// G3
 	if fd, ok := fs["structDecodeFuncOf"]; ok {
 		var inner *ast.FuncLit
@@ -270,8 +319,10 @@ func extractDecoderCfg(repo, root string) error {
 		facts["G1"], facts["G2"], facts["G3"], facts["G4"], facts["G5"])
 	fmt.Fprintf(&sb, "-- SASL raw exchange (saslauthenticate readResp): G6 negative length rejected=%v  G7 no allocation sized by the length=%v\n", facts["G6"], facts["G7"])
 	fmt.Fprintf(&sb, "-- G8 arrays allocated as their elements arrive (decodeElems: first makeArray capped by arrayChunk, loop stops at the first error)=%v\n", facts["G8"])
-	fmt.Fprintf(&sb, "def decoderCfg : KV.Codec.Cfg := { bounded := %v }\n", bounded)
+	fmt.Fprintf(&sb, "def decoderCfg : KV.Codec.Cfg := { bounded := %v, growing := %v }\n", bounded, facts["G8"] && facts["G9"])
 	fmt.Fprintf(&sb, "/-- G8: a count that is within the ANNOUNCED frame size but beyond what was received does not allocate ahead of the data -/\ndef arraysGrow : Bool := %v\n", facts["G8"])
+	fmt.Fprintf(&sb, "/-- G9: decoder.read allocates an announced string / bytes length only up to readChunk; longer values grow with the bytes received -/\ndef readsGrow : Bool := %v\n", facts["G9"])
+	fmt.Fprintf(&sb, "/-- G10: the tagged-field loops (response header, request header, flexible structs) stop at the first decoder error -/\ndef tagLoopsStop : Bool := %v\n", facts["G10"])
 	fmt.Fprintf(&sb, "def saslCfg : KV.Codec.SaslCfg := { negChecked := %v, grows := %v }\nend KV.Gen\n", facts["G6"], facts["G7"])
 	return os.WriteFile(filepath.Join(root, "lean", "KafkaVerif", "Gen", "DecoderCfg.lean"), []byte(sb.String()), 0o644)
 }
